@@ -353,6 +353,7 @@ package ctfe
 //@ at sa assert [stores-chain-under-its-hash] sa.arg1 == h.res && sa.arg2 == chain
 //@ site add$1#1 as gs
 //@ at gs assert [caches-chain-under-its-hash] gs.hash == h.res && gs.chain == chain
+//@ ensures [cache-filled-only-after-a-successful-store] gs.called ==> sa.called && sa.res == nil
 
 //@ func (*indirectIssuanceChainService).add$1
 //@ props C14
